@@ -53,6 +53,7 @@ pub fn nm_structs() {
     // layout-only difference: same names and types, different representation
     differ!(nm::base::Z, nm::repr::Z);
     assert!(digests::<nm::base::Z>().1 != digests::<nm::repr::Z>().1, "[C04/differ.layout] a representation attribute changes the alignment hash");
+    assert!(digests::<nm::align8::W>().1 != digests::<nm::align16::W>().1, "[C04/differ.layout] the argument of a representation attribute changes the alignment hash");
     assert!(digests::<nm::base::Z>().1 != digests::<nm::swapped::Z>().1, "[C04/differ.layout] field order of a zero-copy type changes the alignment hash");
 }
 
@@ -64,6 +65,7 @@ pub fn nm_enums_consts() {
     type_differ!(nm::base::E, nm::retyped::E);
     type_differ!(nm::base::Q<1>, nm::base::Q<2>);
     type_differ!(nm::base::Q<1>, nm::renamed::Q<1>);
+    type_differ!(ZC2<1, 2>, ZC2<2, 1>);
     type_differ!(nm::base::G<u32>, nm::base::G<i32>);
     type_differ!(nm::base::G<Vec<u8>>, nm::base::G<Box<[u8]>>);
 }
